@@ -214,6 +214,11 @@ def build_traces(path, tier, seed):
         n = gen.length(rng, 8, 400 if tier == "quick" else 3000)
         x, shape = gen.record(rng, n, amp=float(10.0 ** rng.uniform(-2, 2)))
         d = i % 5
+        if i == ndet - 1 or (tier == "thorough" and i % 50 == 49):
+            # a long record with the highest degree, object level (the least-squares problem is at its worst conditioned)
+            n, d = 20001, 4
+            x, shape = gen.record(rng, n, shape="noise", amp=1.0)
+            i = i | 1
         if i % 2:
             o = eqsig.AccSignal(x.copy(), 0.01)
             o.remove_poly(gen.intlike(rng, d))
